@@ -877,12 +877,13 @@ def rule_fmt_dispatch(model):
                    'first, then to a named special format, then to a '
                    '%-format: in every dispatch chain the method test '
                    'precedes the special-format test')
-    fi = model.func('DT_Var', 'Var.render')
+    ren = model.func('DT_Var', 'Var.render')
     n = 0
-    for x in own_nodes(fi.node):
+    from ..model import parent as _parent
+    for fi, x in [(f, x) for f in model.closure(ren)
+                  for x in own_nodes(f.node)]:
         if not isinstance(x, ast.If):
             continue
-        from ..model import parent as _parent
         par = _parent(x)
         if isinstance(par, ast.If) and par.orelse == [x]:
             continue          # not the head of its chain
@@ -913,6 +914,24 @@ def rule_fmt_dispatch(model):
         n += 1
         i = kinds.index('special')
         ok = 'method' in kinds[:i]
+        if not ok and i == 0:
+            # guard-clause style: an earlier sibling `if hasattr(val, fmt):
+            # ...; return` in the same statement list
+            for fld in ('body', 'orelse', 'finalbody'):
+                lst = getattr(par, fld, None)
+                if isinstance(lst, list) and x in lst:
+                    for st in lst[:lst.index(x)]:
+                        if isinstance(st, ast.If) and any(
+                                isinstance(y, ast.Call) and isinstance(
+                                    y.func, ast.Name) and
+                                y.func.id == 'hasattr' and len(y.args) == 2
+                                and not isinstance(y.args[1], ast.Constant)
+                                for y in ast.walk(st.test)) and st.body and \
+                                isinstance(st.body[-1], (ast.Return,
+                                                         ast.Raise,
+                                                         ast.Continue)):
+                            ok = True
+                            kinds = ['method'] + kinds
         r.instance(fi.where, f'if-chain at {norm(tests[0])}',
                    ' < '.join(k for k in kinds if k) if ok
                    else 'SPECIAL FORMAT TESTED FIRST')
@@ -922,8 +941,9 @@ def rule_fmt_dispatch(model):
                       'the value (or the method test is gone): a value '
                       'whose own method has the name of a registered format '
                       'is formatted by the built-in instead', node=x, ctx=fi)
-    if n < 2:
-        raise AnalysisError(f'C15.R10: only {n} fmt dispatch chains found')
+    if n < 1:
+        raise AnalysisError(f'C15.R10: no fmt dispatch chain found in '
+                            'Var.render or its helpers')
     return r
 
 
